@@ -131,6 +131,18 @@ def check_validation(ctx, num=2):
             d = f"`{stmt_text(lp)}` asserts {norm.show(goal)} for every element" + ("" if ok else "; but the loop can be bypassed")
         else:
             d = f"`{stmt_text(lp)}` does not establish can_suspend_container() of the looked-up container for every element"
+    if not ok:
+        # all()-form:  assert all(self.get_container_by_id(x.container_id).can_suspend_container() for x in suspensions)
+        for a in (n for n in own_nodes(v.node) if isinstance(n, ast.Assert)):
+            t = a.test
+            if isinstance(t, ast.Call) and norm.is_name(t.func, "all") and len(t.args) == 1 and isinstance(t.args[0], (ast.GeneratorExp, ast.ListComp)):
+                ge = t.args[0]
+                if len(ge.generators) == 1 and not ge.generators[0].ifs and norm.is_name(ge.generators[0].iter, sp) and isinstance(ge.generators[0].target, ast.Name):
+                    xv = ge.generators[0].target.id
+                    if norm.U(norm.subst(ge.elt, env)) == f"self.get_container_by_id({xv}.container_id).can_suspend_container()" \
+                            and g.path_avoiding(g.entry.id, {g.exit.id}, {g.node_of(a).id}) is None:
+                        ok = True
+                        d = f"`{stmt_text(a)[:100]}` asserts it for every element"
     ctx.ob(num, "K2", "every requested suspension is validated: the named container, looked up by id, must report can_suspend_container()", ok, v,
            loops[0] if loops else v.node, construct="for s in suspensions: assert lookup(s.container_id).can_suspend_container()", detail=d)
     # lookup only among active containers
@@ -144,6 +156,16 @@ def check_validation(ctx, num=2):
         lp = enclosing_for(r, lk.node)
         okr = False
         dd = "returns something that is not an element of self.active_containers"
+        rv = norm.subst(r.value, single_defs(lk))
+        if isinstance(rv, ast.Call) and norm.is_name(rv.func, "next") and len(rv.args) == 2 and isinstance(rv.args[1], ast.Constant) and rv.args[1].value is None \
+                and isinstance(rv.args[0], ast.GeneratorExp) and len(rv.args[0].generators) == 1:
+            ge = rv.args[0]
+            gen = ge.generators[0]
+            if pool._list_attr(gen.iter) == "active_containers" and isinstance(gen.target, ast.Name) and norm.is_name(ge.elt, gen.target.id) and len(gen.ifs) == 1 \
+                    and norm.nnf(gen.ifs[0]) == norm.mk_cmp("==", f"{gen.target.id}.container_id", lparams[1]):
+                ctx.ob(num, "K2", "a suspension can only name a container that is currently running (lookup among active containers, by id)", True, lk, r,
+                       detail="first element of self.active_containers whose container_id equals the argument, else None")
+                continue
         if lp is not None and pool._list_attr(lp.iter) == "active_containers" and isinstance(lp.target, ast.Name) and norm.is_name(r.value, lp.target.id):
             okr = norm.entails(gl.facts_at(r), norm.mk_cmp("==", f"{lp.target.id}.container_id", lparams[1]))
             dd = f"returns the element of self.active_containers whose container_id equals the argument: {okr}"
@@ -282,10 +304,10 @@ def check_duration(ctx, num=3):
             ok = skip is None and before
             d += f"; every suspending container ticked: {skip is None}; before the is_suspended() test of the same loop: {before}"
         ctx.ob(num, "K3", "every suspending container's count-down advances exactly once per tick, before the release test", ok, f, c, detail=d)
-    others = [(fn_, c) for fn_, c in package_calls(P, "suspend_container_tick") if fn_.node is not f.node]
+    others = [(fn_, c) for fn_, c in package_calls(P, "suspend_container_tick") if not (fn_.mod.rel == RP and fn_.qual in pa.closure)]
     for fn_, c in others:
         ctx.ob(num, "K1", "the count-down is advanced only by ResourcePool.run_one_tick", False, fn_, c, detail=f"called in {fn_.qual}")
-    others = [(fn_, c) for fn_, c in package_calls(P, "suspend_container") if fn_.node is not f.node]
+    others = [(fn_, c) for fn_, c in package_calls(P, "suspend_container") if not (fn_.mod.rel == RP and fn_.qual in pa.closure)]
     for fn_, c in others:
         ctx.ob(num, "K1", "suspension is started only by ResourcePool.run_one_tick (after validation)", False, fn_, c, detail=f"called in {fn_.qual}")
 
